@@ -30,11 +30,14 @@ def _record(pid, t, s):
     LOGS[pid].append((float(t), complex(s)))
 
 
-def make_probe(a, coeffs=(0.0, 0.0, 0.0, 1.0), complex_valued=False, identity=False):
+def make_probe(a, coeffs=(0.0, 0.0, 0.0, 1.0), complex_valued=False, identity=False, hook=None):
     """Create a ProbePDE instance (class is built lazily so importing this module does not
     import the package).  ``identity=True`` (only for a == 1 without forcing) makes the
     right-hand side return its argument itself, as the package's own compiled expression for
     ``PDE({"c": "c"})`` does: the stepper then holds a rate that aliases the state buffer."""
+    # ``hook``: None, "inplace" (post-step hook scaling the state in place, the documented pattern)
+    # or "newarray" (hook returning a new array, which the interpreted stepping loop supports by
+    # copying the result back); the hook counts its calls in ``post_step_data``
     if identity:
         assert a == 1 and not any(coeffs[:3])
     import numba as nb
@@ -61,6 +64,22 @@ def make_probe(a, coeffs=(0.0, 0.0, 0.0, 1.0), complex_valued=False, identity=Fa
             if identity:
                 return state.copy()  # the interpreted route hands out its working buffer
             return self.a * state + self.forcing(t)
+
+        def make_post_step_hook(self, state, backend):
+            if hook is None:
+                raise NotImplementedError
+            if hook == "inplace":
+
+                def post_step_hook(state_data, t, post_step_data):
+                    state_data *= 0.97
+                    return state_data, post_step_data + 1.0
+
+            else:
+
+                def post_step_hook(state_data, t, post_step_data):
+                    return state_data * 0.97, post_step_data + 1.0
+
+            return post_step_hook, 0.0
 
         def make_evolution_rate(self, state, backend):
             a, pid = self.a, self.pid
